@@ -119,6 +119,9 @@ func FuncText(f *u.Func) string {
 func (op Op) String() string {
 	switch op.Kind {
 	case OpScope:
+		if op.RawDesc != "" {
+			return fmt.Sprintf("scope s%d->new(name=%s)", op.Scope, op.RawDesc)
+		}
 		return fmt.Sprintf("scope s%d->new", op.Scope)
 	case OpVisualize:
 		if op.VisErr > 0 {
